@@ -866,7 +866,7 @@ var scenarios = []string{"fresh", "fresh", "fresh", "edit-ignored", "edit-hashed
 
 func runSystem(c *kit.Ctx) int {
 	initNoResolve()
-	n := 520
+	n := 420
 	if c.Thorough() {
 		n = 7000
 	}
